@@ -87,7 +87,7 @@ theorem optPart_raw (st : OptState) (k v : Str) (hk : OptKeyOk k = true) (hv : h
       simp only [List.all_cons, Bool.and_eq_true] at hv1
       have hcq := isToken_ne_dq hv1.1
       rw [hq]
-      simp [optPart, last!_of_getLast? hl, hne, first!, hc, hcq]
+      simp [optPart, optUnquote, optStore, last!_of_getLast? hl, hne, first!, hc, hcq]
       cases hg : (c :: t).getLast? with
       | none => simp at hg
       | some e => simp [last!, hg]
@@ -96,6 +96,7 @@ theorem optPart_raw (st : OptState) (k v : Str) (hk : OptKeyOk k = true) (hv : h
       have : ('"' :: (escapeDq v ++ ['"'])).getLast? = some '"' := by
         rw [← List.cons_append, List.getLast?_concat]
       simp [last!, this]
-    simp [optPart, last!_of_getLast? hl, hne, first!, hc, hlast, unescape_escape, replace3_id v hv]
+    simp [optPart, optUnquote, optStore, last!_of_getLast? hl, hne, first!, hc, hlast, unescape_escape,
+      replace3_id v hv]
 
 end Wz.Http
